@@ -432,6 +432,10 @@ def eigh(a):
 
 @eigh.register(FermionicArray)
 def eigh_fermionic(a):
+    if a.phases:
+        # eigenvalues depend on the actual elements, not the raw blocks
+        a = a.phase_sync()
+
     eigenvalues, eigenvectors = eigh.dispatch(AbelianArray)(a)
 
     if not a.indices[1].dual:
@@ -483,6 +487,13 @@ def solve(a, b):
 
 @solve.register(FermionicArray)
 def solve_fermionic(a, b):
+    if a.phases:
+        # need the actual elements, not the raw blocks
+        a = a.phase_sync()
+    if b.phases:
+        # n.b. the lazy phases of b are keyed by sectors of b, not of x
+        b = b.phase_sync()
+
     x = solve.dispatch(AbelianArray)(a, b)
 
     if x.indices[0].dual:
